@@ -12,7 +12,10 @@ import traceback
 
 
 class Scheduler:
-    def __init__(self, ops, preempts, first=0, src_marker="/joserfc/"):
+    def __init__(self, ops, preempts, first=0, src_marker="/joserfc/", observer=None):
+        # observer (optional, for trace recording): .line(t) before every line of thread t, .running(t) when t gets the baton,
+        # .returned(t, result, error) when t's operation has finished - all called by the thread that holds the baton
+        self.observer = observer
         self.ops = ops
         self.n = len(ops)
         self.preempts = {}
@@ -55,8 +58,12 @@ class Scheduler:
         def local(frame, event, arg):
             if event == "line":
                 self.steps[me] += 1
+                if self.observer is not None:
+                    self.observer.line(me)
                 if self.steps[me] in self.preempts.get(me, ()):
                     self._switch(me)
+                    if self.observer is not None:
+                        self.observer.running(me)
             return local
 
         def glob(frame, event, arg):
@@ -69,6 +76,8 @@ class Scheduler:
         if not self.go[me].wait(30):
             self.stuck = True
             return
+        if self.observer is not None:
+            self.observer.running(me)
         sys.settrace(self._tracer(me))
         try:
             self.results[me] = self.ops[me]()
@@ -76,6 +85,8 @@ class Scheduler:
             self.errors[me] = (type(e).__name__, str(e)[:200], traceback.format_exc()[-600:])
         finally:
             sys.settrace(None)
+            if self.observer is not None:
+                self.observer.returned(me, self.results[me], self.errors[me])
             self.done[me] = True
             self._switch(me, finished=True)
 
